@@ -18,6 +18,7 @@ EXPLANATION = (
     "[(key, value)] in the TypeError handler that guards only that iteration. R-PURE/R-FRESH: build writes no field. "
     "R-ATOMIC + keyed discipline: add_parameter / remove_parameter reject before writing and store/delete exactly one "
     "entry. 'First declared varies slowest' is then itertools.product's documented order (trusted).")
+EXPLANATION += (" The constructor walks its dictionary in the dictionary's own order (not sorted / reversed / a set).")
 ASSUMPTIONS = ["itertools.product semantics", "dict preserves insertion order", "values are re-iterable (quantifier)"]
 
 PL = BATCH + 'ParameterList'
@@ -33,7 +34,7 @@ def check_build(cx: Cx):
     build = cx.fn(PL + '.build')
     self_s = Sym(build.params[0])
     params = Attr(self_s, '_parameters')
-    paths = cx.walker.paths(build, WalkOptions(unroll=1))
+    paths = cx.walker.paths(build, WalkOptions(unroll=1, inline_full=frozenset({'<private>'})))      # helpers that expand one value fork the path
     rets = [p for p in paths if p.end == 'return']
     cx.floor('build() returning paths', len(rets), 1)
     kinds = set()
@@ -220,7 +221,7 @@ def _check_entry(cx, viol, kinds, key, value, entry, p, paths, table, loop_line,
                  f"from the TypeError fallback ({p.cond!r})", awhere)
     elif isinstance(entry, Fresh) and entry.kind in ('listcomp', 'list', 'call:list'):
         ef = list_facts(paths, p, entry, lambda s: strip_versions(s) == value, table)
-        if not (ef.ok and ef.key is None and ef.base_var is not None and ef.cond == FTrue and ef.stages == 1 and
+        if not (ef.ok and ef.key is None and ef.base_var is not None and ef.cond == FTrue and ef.stages >= 1 and
                 ef.elem == mk(key, ef.base_var)):
             viol('R-GUARD', 'collection-entry-is-key-v-for-v-in-value',
                  f"a collection-valued parameter is expanded as {entry!r} ({ef.err or ef.elem!r}); expected (key, v) for "
